@@ -31,9 +31,11 @@ type fsmInput struct {
 
 type st19 struct {
 	Dump []byte
-	// how the state was reached (for the in-memory continuation)
-	ParentDump []byte
-	Via        *fsmInput
+	// how the state was reached, for the in-memory continuation: the dump at the last machine
+	// hand-over (nil = the round's creation) and every event applied since then. The live side
+	// is one instance that was never dumped and restored since that point.
+	Anchor []byte
+	Since  []*fsmInput
 }
 
 func c19(tier string, args []string) int {
@@ -61,6 +63,14 @@ func c19(tier string, args []string) int {
 	r.Set("explorations", per)
 	r.Set("rule", "BFS over every round dump reachable through the FSM API with the public alphabet of C05 plus hand-over and signing events; for every reachable dump D (reached from P by e) and every next event e': FromDump(D).Do(e') is compared with the in-memory continuation FromDump(P).Do(e).Do(e') (error-ness, response state and data, resulting dump); every reachable dump must be restorable and listable through FSMService.GetFSMList next to a healthy round")
 	return finish(r)
+}
+
+// child19 extends the live path; a hand-over state starts a new live instance (as the product does).
+func child19(cur *st19, dump []byte, state fsm.State, via *fsmInput) *st19 {
+	if handOver[state] {
+		return &st19{Dump: dump, Anchor: dump}
+	}
+	return &st19{Dump: dump, Anchor: cur.Anchor, Since: append(append([]*fsmInput(nil), cur.Since...), via)}
 }
 
 var handOver = map[fsm.State]bool{spf.StateSignatureProposalCollected: true, dpf.StateDkgMasterKeyCollected: true}
@@ -206,24 +216,31 @@ func explore19(r *kit.Run, n, t int) (int, int, string) {
 				if o1.errd || o1.dump == "" {
 					out = append(out, &xsearch.St{Key: s.Key, Data: cur, Via: in.Label})
 				} else {
-					out = append(out, &xsearch.St{Key: o1.dump, Data: &st19{Dump: []byte(o1.dump), ParentDump: cur.Dump, Via: &alphabet[idx]}, Via: in.Label})
+					out = append(out, &xsearch.St{Key: o1.dump, Data: child19(cur, []byte(o1.dump), o1.state, &alphabet[idx]), Via: in.Label})
 				}
 				continue
 			}
-			if cur.Via == nil {
+			if cur.Anchor == nil {
 				b, err = state_machines.Create(round)
 			} else {
-				b, err = restore(cur.ParentDump)
-				if err == nil {
-					pre := run(b, *cur.Via)
-					if pre.errd || pre.dump != string(cur.Dump) {
-						r.Violation("C19/nondeterministic-transition", fmt.Sprintf("repeating %s from the same dump gave a different result (err=%v)", cur.Via.Label, pre.emsg), s.Trace())
-						continue
-					}
-				}
+				b, err = restore(cur.Anchor)
 			}
 			if err != nil {
 				return nil, fmt.Errorf("cannot rebuild in-memory instance: %v", err)
+			}
+			diverged := false
+			last := ""
+			for _, step := range cur.Since {
+				pre := run(b, *step)
+				if pre.errd {
+					diverged = true
+					break
+				}
+				last = pre.dump
+			}
+			if len(cur.Since) > 0 && (diverged || last != string(cur.Dump)) {
+				r.Violation("C19/nondeterministic-transition", fmt.Sprintf("repeating the path to %s in memory gave a different dump", dd.State), s.Trace())
+				continue
 			}
 			o2 := run(b, in)
 			if o1.errd != o2.errd || o1.state != o2.state || o1.data != o2.data || (!o1.errd && o1.dump != o2.dump) {
@@ -235,7 +252,7 @@ func explore19(r *kit.Run, n, t int) (int, int, string) {
 				out = append(out, &xsearch.St{Key: s.Key, Data: cur, Via: in.Label})
 				continue
 			}
-			c := &st19{Dump: []byte(o1.dump), ParentDump: cur.Dump, Via: &alphabet[idx]}
+			c := child19(cur, []byte(o1.dump), o1.state, &alphabet[idx])
 			out = append(out, &xsearch.St{Key: o1.dump, Data: c, Via: in.Label})
 			mu.Lock()
 			if sampled < 2 && o1.state == sif.StateSigningPartialSignsCollected {
